@@ -366,6 +366,7 @@ class Version(object):
         """
         self._unparsed = version
         parsed = current_list = []
+        lists = [parsed]
         buf = str(version.strip()).lower()
         start = 0
         is_digit = False
@@ -383,24 +384,29 @@ class Version(object):
                     current_list.append(self._parse_buffer(buf[start:idx]))
                 start = idx + 1
                 current_list = self._new_list(current_list)
+                lists.append(current_list)
             elif ch.isdigit():
                 if not is_digit and idx > start:
                     current_list.append(self._parse_buffer(buf[start:idx], True))
                     current_list = self._new_list(current_list)
+                    lists.append(current_list)
                     start = idx
                 is_digit = True
             else:
                 if is_digit and idx > start:
                     current_list.append(self._parse_buffer(buf[start:idx]))
                     current_list = self._new_list(current_list)
+                    lists.append(current_list)
                     start = idx
                 is_digit = False
         else:
             if len(buf) > start:
                 current_list.append(self._parse_buffer(buf[start:]))
-        current_list = self._normalize(current_list)
+        # remove the empty trailing items of every nested list, innermost first
+        for nested in reversed(lists):
+            self._normalize(nested)
 
-        self._parsed = list2tuple(self._normalize(parsed))
+        self._parsed = list2tuple(parsed)
 
     def __cmp__(self, other):
         if self is other:
